@@ -88,7 +88,7 @@ pub fn offsets() -> Vec<(i64, i64)> {
     vec![(0, H), (H, 2 * H), (-5 * H, -4 * H), (12 * H, 13 * H), (10 * H + 1800, 11 * H), (0, -H), (H, H), (-25 * H + 1, 26 * H - 1), (26 * H - 1, -25 * H + 1)]
 }
 
-/// the 12 (start time, end time, offsets) combinations of the quick tier: every time and every offset pair occurs
+/// the 16 (start time, end time, offsets) combinations of the quick tier: every time and every offset pair occurs
 pub fn quick_combos() -> Vec<(i64, i64, (i64, i64))> {
     let t = times();
     let o = offsets();
@@ -105,6 +105,11 @@ pub fn quick_combos() -> Vec<(i64, i64, (i64, i64))> {
         (t[1], t[2], o[7]),
         (t[2], t[1], o[8]),
         (t[7], t[3], o[1]),
+        // extreme time paired with the extreme offset of the opposite sign: transition up to ~8 days into the neighbouring year
+        (t[8], t[0], o[7]),
+        (t[0], t[8], o[8]),
+        (t[8], t[8], o[7]),
+        (t[0], t[0], o[8]),
     ]
 }
 
